@@ -91,7 +91,14 @@ def run(repo, rep):
         probs.append('unexpected signature %s' % add.params)
     # a call that does give a new parameter registers something the old look-up must not see: no path on which such a
     # parameter differs from its default writes one of the two tables Status(code, command) reads
+    given_in_package = set()
     if add_new:
+        for m_ in repo.modules.values():
+            for n_ in ast.walk(m_.tree):
+                if isinstance(n_, ast.Call) and norm(n_.func).split('.')[-1] == 'add_status':
+                    if len(n_.args) > 5 or any(isinstance(a_, ast.Starred) for a_ in n_.args) or any(k_.arg is None for k_ in n_.keywords):
+                        given_in_package.update(add_new)
+                    given_in_package.update(k_.arg for k_ in n_.keywords if k_.arg in add_new)
         cg = SymClient(repo, add, event_of=lambda *a: None, hierarchy=hier, inline=helper,
                        store_event=lambda t: t in ('_general_status_dict[]', '_status_dict[]'))
         cg.run(empty_state())
@@ -99,13 +106,24 @@ def run(repo, rep):
             if e_.kind != 'store':
                 continue
             for p_, d_ in add_new.items():
-                given = [cn for cn in e_.conds if cn in ('+%s is not None' % p_, '-%s is None' % p_, '+%s' % p_, '-not %s' % p_,
-                                                          '+%s != %s' % (p_, d_), '-%s == %s' % (p_, d_))]
-                if given:
+                # "given": a value other than the default -- not None for a None default, false for a True default, true for a
+                # False default, different for any other constant
+                forms = ['+%s != %s' % (p_, d_), '-%s == %s' % (p_, d_)]
+                if d_ == 'None':
+                    forms += ['+%s is not None' % p_, '-%s is None' % p_, '+%s' % p_, '-not %s' % p_]
+                elif d_ == 'True':
+                    forms += ['-%s' % p_, '+not %s' % p_]
+                elif d_ in ('False', '0', "''"):
+                    forms += ['+%s' % p_, '-not %s' % p_]
+                given = [cn for cn in e_.conds if cn in forms]
+                # ... where the library itself gives the parameter (a call in the package that passes it): a parameter only
+                # an application can give (``override=False``) changes nothing about the table as the library ships it
+                if given and p_ in given_in_package:
                     probs.append('a row registered with %s given is also written to %s (line %d): Status(code, command) -- called as before, '
                                  'without %s -- now classifies that code by a row that was meant for one %s only'
                                  % (p_, e_.callee.split('[')[0], e_.line, p_, p_))
     seen = {'general': 0, 'specific': 0}
+    w1_undecided = []
     records_carry_code = False
     for e, s in stores:
         key, val = (inline_pure_calls(x, repo, 'statuses') for x in e.args)
@@ -143,6 +161,8 @@ def run(repo, rep):
             re_ = ast.parse(rng, mode='eval').body
         except SyntaxError:
             re_ = None
+        while isinstance(re_, ast.Call) and norm(re_.func) in ('list', 'tuple', 'iter') and len(re_.args) == 1 and not re_.keywords:
+            re_ = re_.args[0]          # the same elements in the same order
         if isinstance(re_, ast.Call) and norm(re_.func) == 'range' and len(re_.args) == 2:
             lo, hi = aff_of_term(norm(re_.args[0])), aff_of_term(norm(re_.args[1]))
             if lo != Affine.sym(('var', p_code)):
@@ -155,9 +175,11 @@ def run(repo, rep):
             if not no_end:
                 probs.append('single code used although an end code is given')
         else:
-            probs.append('code range %s not recognised' % rng)
+            w1_undecided.append('the codes a row covers are %s, a form the registration rule does not read' % rng[:100])
     if not seen['general'] or not seen['specific']:
         probs.append('general/specific table writes found: %s' % seen)
+    if w1_undecided and not probs:
+        rep.undecided('C18.W1', '%s: %s' % (add.loc(), w1_undecided[0]))
     rep.check(not probs, 'C18.W1', 'statuses:add_status:registration', add.loc(),
               '[code, end] inclusive; general iff command is None; specific keyed (command_field, code) (%d store paths)' % len(stores),
               '; '.join(sorted(set(probs))))
@@ -215,6 +237,16 @@ def run(repo, rep):
     # the registries are written by add_status only; the table they are filled from is constant
     for tname, allowed in (('_status_dict', 'statuses:add_status'), ('_general_status_dict', 'statuses:add_status'), ('KNOWN_STATUSES', None)):
         w_ = [x for x in repo.table_writers('statuses', tname) if allowed is None or not x.startswith(allowed + ':')]
+        # a function added to the module's interface (``remove_status``) that nothing in the package calls changes no
+        # classification the library itself makes: what an application does with it is the application's
+        def unused_new_api(entry):
+            fn_ = entry.split(':')[1].split(' ')[0] if ':' in entry else ''
+            fi_ = st.functions.get(fn_.split('.')[0])
+            if fi_ is None or not repo.is_helper(fi_) or fi_.name.startswith('_'):
+                return False
+            return not any(isinstance(y, ast.Name) and y.id == fi_.name and isinstance(y.ctx, ast.Load) or
+                           isinstance(y, ast.Attribute) and y.attr == fi_.name for m_ in repo.modules.values() for y in ast.walk(m_.tree))
+        w_ = [x for x in w_ if not unused_new_api(x)]
         rep.check(not w_, 'C18.W1', 'statuses:%s:writers' % tname, st.relpath,
                   'written by add_status only' if allowed else 'constant after import', '; '.join(w_))
     # ---------------------------------------------------------------- W2
@@ -399,7 +431,13 @@ def run(repo, rep):
         try:
             unknown_type = ast.literal_eval(urf['code_type'])
         except (ValueError, SyntaxError):
-            unknown_type = None
+            # a named constant of the module (``TYPE_FAILURE``)
+            try:
+                unknown_type = repo.try_fold(ast.parse(urf['code_type'], mode='eval').body, st)
+            except SyntaxError:
+                unknown_type = None
+            if not isinstance(unknown_type, str):
+                unknown_type = None
     general: List[Tuple[int, int, str, int]] = []
     specific: Dict[str, List[Tuple[int, int, str, int]]] = {}
     bad_rows = []
